@@ -114,6 +114,14 @@ Theorem C02_kneedle : forall (N : Num) cost (straight : nat -> nat -> T N) t1 t2
 Proof. exact @mk_kneedle. Qed.
 Print Assumptions C02_kneedle.
 
+(* the range hypothesis cannot be dropped: if the detector answers the last index of the curve (lmethod.knee on 3 points,
+   menger.knee on 1 point: the cases t2 < detector minimum) the loop re-pushes the same range and no fuel suffices *)
+Theorem C02_range_needed : forall (N : Num) cost (straight : nat -> nat -> T N) knee1 t1 t2 l r k,
+  mk_step cost straight knee1 t1 t2 l r = Some k -> k + 1 = r - l ->
+  forall fuel st ks tr, mk_loop cost straight knee1 t1 t2 fuel ((l, r) :: st) ks tr = None.
+Proof. exact @mk_loop_last_index_diverges. Qed.
+Print Assumptions C02_range_needed.
+
 (* non-vacuity: an oracle valuation meeting the hypothesis for every n (the detector answers the middle of any slice of
    more than 3 points), and the model evaluated on it on doubles: 12 points, t1 = 0.5 <= straightness 1.0 *)
 Theorem C02_example_in_range : forall n, knee_in_range ex_knee1 3 1 n.
